@@ -417,6 +417,42 @@ pub fn run(tier: &str) -> Result<Report, String> {
         rep.add_count("failing_formulae", bad.len() as u64);
         rep.violations.extend(bad.into_iter().take(40));
     }
+    // until operators with compound operands over all variables of sparse 3- and 4-variable networks with several unknown
+    // functions (variables that do not regulate each other; operands that ignore some variables)
+    {
+        let specs = [
+            ("spa4", "b -?? a; c -?? b; b -?? c; c -?? c; c -?? d; $a: b; $d: !c"),
+            ("spb4", "a -?? b; a -?? c; d -?? c; d -?? d; $a: true; $b: a; b -?? a"),
+            ("spc3", "a -?? b; c -?? c; b -?? c; $a: !a; a -| a"),
+        ];
+        for (name, text) in specs {
+            let b = Arc::new(bind(name, &crate::nets::spec(text), 3)?);
+            if b.cols.len() < 2 {
+                return Err(format!("sparse network {name} has a single colour"));
+            }
+            crate::sem::note_network(&mut rep, &b);
+            let ctx = NetCtx::new(b.clone(), Labels::default(), "none").with_all_props();
+            let w = Witnesses::new(&b)?;
+            let fs = crate::formulas::until_compound_family(b.n as u8);
+            let fs: Vec<F> = if tier == "quick" { fs.into_iter().step_by(3).collect() } else { fs };
+            let bad: Vec<Violation> = fs
+                .par_iter()
+                .filter_map(|f| {
+                    let bad = check(&ctx, &w, f);
+                    if bad.is_empty() {
+                        None
+                    } else {
+                        Some(Violation { case: json!({"kind": "none"}), what: format!("formula {} on {} [{}]: {}", f.show(&ctx.user), b.name, b.aeon.replace('\n', "; "), bad.join(" | ")), size: f.size() })
+                    }
+                })
+                .collect();
+            rep.evaluations += fs.len() as u64 * (1 + b.cols.len() as u64);
+            rep.traces_validated += fs.len() as u64 * b.cols.len() as u64;
+            rep.distinct_nontrivial += fs.len() as u64 * b.cols.len() as u64;
+            rep.add_count("formula_colour_pairs_sparse_networks", fs.len() as u64 * b.cols.len() as u64);
+            rep.violations.extend(bad.into_iter().take(20));
+        }
+    }
     // extended formulae with colour-dependent context sets (a domain that is empty in some colours only,
     // colour-disjoint sets, ...): the instantiated network gets the colour's slices of the sets
     for b in nets.iter().filter(|b| b.cols.len() > 1 && b.n <= 2 && (tier != "quick" || ["imp1", "con2"].contains(&b.name.as_str()))) {
